@@ -707,4 +707,147 @@ theorem leadTerm_perm {P : M → Prop} {cmp : M → M → Ordering} (h : OrdLaws
 
 end Lead
 
+/-! ### transport along an injective map of generators (used for `MultiVar`: raw monomials vs. well-formed ones) -/
+section KeyMap
+variable {X Y R : Type} [DecidableEq X] [DecidableEq Y] [DecidableEq R] [CommRing R]
+
+/-- rename the generators -/
+def mapK (φ : X → Y) (l : List (X × R)) : List (Y × R) := l.map (fun p => (φ p.1, p.2))
+
+theorem mapK_nil (φ : X → Y) : mapK φ ([] : List (X × R)) = [] := rfl
+theorem mapK_cons (φ : X → Y) (p : X × R) (t : List (X × R)) : mapK φ (p :: t) = (φ p.1, p.2) :: mapK φ t := rfl
+
+theorem upd_mapK {φ : X → Y} (hφ : Function.Injective φ) (l : List (X × R)) (x : X) (r : R) :
+    upd (mapK φ l) (φ x) r = mapK φ (upd l x r) := by
+  induction l with
+  | nil => rfl
+  | cons p t ih =>
+    obtain ⟨y, v⟩ := p
+    simp only [mapK_cons, upd]
+    by_cases h : y = x
+    · subst h; simp [mapK_cons]
+    · have : ¬ φ y = φ x := fun e => h (hφ e)
+      simp [h, this, mapK_cons, ih]
+
+theorem addPair_mapK {φ : X → Y} (hφ : Function.Injective φ) (l : List (X × R)) (p : X × R) :
+    addPair (mapK φ l) (φ p.1, p.2) = mapK φ (addPair l p) := by
+  unfold addPair
+  by_cases h : p.2 = 0
+  · simp [h]
+  · simp [h, upd_mapK hφ]
+
+theorem clean_mapK (φ : X → Y) (l : List (X × R)) : clean (mapK φ l) = mapK φ (clean l) := by
+  induction l with
+  | nil => rfl
+  | cons p t ih =>
+    unfold clean at *
+    by_cases h : p.2 = 0
+    · simp [mapK_cons, List.filter_cons, h, ih]
+    · simp [mapK_cons, List.filter_cons, h, ih]
+
+theorem foldl_addPair_mapK {φ : X → Y} (hφ : Function.Injective φ) (it l : List (X × R)) :
+    (mapK φ it).foldl addPair (mapK φ l) = mapK φ (it.foldl addPair l) := by
+  induction it generalizing l with
+  | nil => rfl
+  | cons p t ih => simp only [mapK_cons, List.foldl_cons]; rw [addPair_mapK hφ, ih]
+
+theorem fromIter_mapK {φ : X → Y} (hφ : Function.Injective φ) (it : List (X × R)) :
+    fromIter (mapK φ it) = mapK φ (fromIter it) := by
+  unfold fromIter
+  rw [← clean_mapK, ← foldl_addPair_mapK hφ]; rfl
+
+theorem addAssign_mapK {φ : X → Y} (hφ : Function.Injective φ) (a b : List (X × R)) :
+    addAssign (mapK φ a) (mapK φ b) = mapK φ (addAssign a b) := by
+  unfold addAssign
+  rw [← clean_mapK, ← foldl_addPair_mapK hφ]
+
+theorem mapK_map_coeff (φ : X → Y) (f : R → R) (a : List (X × R)) :
+    mapK φ (a.map (fun p => (p.1, f p.2))) = (mapK φ a).map (fun p => (p.1, f p.2)) := by
+  simp [mapK, List.map_map, Function.comp_def]
+
+theorem subAssign_mapK {φ : X → Y} (hφ : Function.Injective φ) (a b : List (X × R)) :
+    subAssign (mapK φ a) (mapK φ b) = mapK φ (subAssign a b) := by
+  rw [subAssign_eq, subAssign_eq, ← clean_mapK, ← foldl_addPair_mapK hφ, mapK_map_coeff φ (fun v => -v)]
+
+theorem smul_mapK (φ : X → Y) (a : List (X × R)) (r : R) : smul (mapK φ a) r = mapK φ (smul a r) := by
+  unfold smul
+  split
+  · rfl
+  · rw [← clean_mapK, mapK_map_coeff φ (fun v => v * r)]
+
+theorem neg_mapK {φ : X → Y} (hφ : Function.Injective φ) (a : List (X × R)) :
+    neg (mapK φ a) = mapK φ (neg a) := by
+  unfold neg
+  rw [← fromIter_mapK hφ, mapK_map_coeff φ (fun v => -v)]
+
+theorem coeff_mapK {φ : X → Y} (hφ : Function.Injective φ) (l : List (X × R)) (x : X) :
+    coeff (mapK φ l) (φ x) = coeff l x := by
+  induction l with
+  | nil => rfl
+  | cons p t ih =>
+    obtain ⟨y, v⟩ := p
+    simp only [mapK_cons, coeff]
+    by_cases h : y = x
+    · subst h; simp
+    · have : ¬ φ y = φ x := fun e => h (hφ e)
+      simp [h, this, ih]
+
+theorem pairs_mapK (φ : X → Y) (f : X → X → X) (f' : Y → Y → Y) (hf : ∀ x y, φ (f x y) = f' (φ x) (φ y))
+    (a b : List (X × R)) : pairs f' (mapK φ a) (mapK φ b) = mapK φ (pairs f a b) := by
+  unfold pairs mapK
+  simp [List.flatMap_map, List.map_flatMap, List.map_map, Function.comp_def, hf]
+
+theorem combine_mapK {φ : X → Y} (hφ : Function.Injective φ) (f : X → X → X) (f' : Y → Y → Y)
+    (hf : ∀ x y, φ (f x y) = f' (φ x) (φ y)) (a b : List (X × R)) :
+    combine f' (mapK φ a) (mapK φ b) = mapK φ (combine f a b) := by
+  unfold combine
+  rw [pairs_mapK φ f f' hf, fromIter_mapK hφ]
+
+theorem wf_mapK {φ : X → Y} (hφ : Function.Injective φ) {a : List (X × R)} (ha : WF a) : WF (mapK φ a) := by
+  constructor
+  · have : (mapK φ a).map Prod.fst = (a.map Prod.fst).map φ := by
+      simp [mapK, List.map_map, Function.comp_def]
+    rw [this]; exact List.Nodup.map hφ ha.1
+  · intro p hp
+    obtain ⟨q, hq, rfl⟩ := List.mem_map.mp hp
+    exact ha.2 q hq
+
+end KeyMap
+
+section KeyMapPoly
+variable {M N R : Type} [DecidableEq M] [DecidableEq N] [Mul M] [One M] [Mul N] [One N]
+  [DecidableEq R] [CommRing R]
+
+theorem mul_mapK {φ : M → N} (hφ : Function.Injective φ) (hmul : ∀ x y, φ (x * y) = φ x * φ y)
+    (a b : List (M × R)) : mul (mapK φ a) (mapK φ b) = mapK φ (mul a b) :=
+  combine_mapK hφ _ _ hmul a b
+
+theorem isConst_mapK {φ : M → N} (hφ : Function.Injective φ) (h1 : φ 1 = 1) (a : List (M × R)) :
+    isConst (mapK φ a) = isConst a := by
+  induction a with
+  | nil => rfl
+  | cons p t ih =>
+    unfold isConst at *
+    simp only [mapK_cons, List.all_cons, ih]
+    congr 1
+    have : (φ p.1 = 1) ↔ (p.1 = 1) := ⟨fun e => hφ (by rw [e, h1]), fun e => by rw [e, h1]⟩
+    simp [this]
+
+theorem constTerm_mapK {φ : M → N} (hφ : Function.Injective φ) (h1 : φ 1 = 1) (a : List (M × R)) :
+    constTerm (mapK φ a) = constTerm a := by
+  unfold constTerm; rw [← h1, coeff_mapK hφ]
+
+theorem mulAssign_mapK {φ : M → N} (hφ : Function.Injective φ) (h1 : φ 1 = 1)
+    (hmul : ∀ x y, φ (x * y) = φ x * φ y) (a b : List (M × R)) :
+    mulAssign (mapK φ a) (mapK φ b) = mapK φ (mulAssign a b) := by
+  unfold mulAssign isOne
+  simp only [isConst_mapK hφ h1, constTerm_mapK hφ h1, smul_mapK, mul_mapK hφ hmul]
+  split
+  · rfl
+  · split
+    · rfl
+    · split <;> rfl
+
+end KeyMapPoly
+
 end Yuiv.C16
